@@ -133,6 +133,9 @@ struct gauss_seidel {
         return b;
     }
 
+#ifdef AMGCL_VERIF
+    friend struct ::amgcl::verif::access;
+#endif
     private:
         static int num_threads() {
 #ifdef _OPENMP
@@ -326,6 +329,9 @@ struct gauss_seidel {
 
                     for(const task &t : tasks[tid]) {
                         for(ptrdiff_t r = t.beg; r < t.end; ++r) {
+#ifdef AMGCL_VERIF
+                            AMGCL_VERIF_POINT("gs.row", r);
+#endif
                             ptrdiff_t i   = ord[tid][r];
                             ptrdiff_t beg = ptr[tid][r];
                             ptrdiff_t end = ptr[tid][r+1];
@@ -349,6 +355,9 @@ struct gauss_seidel {
 
                         // each task corresponds to a level, so we need
                         // to synchronize across threads at this point:
+#ifdef AMGCL_VERIF
+                        AMGCL_VERIF_BARRIER("gs.level");
+#endif
 #pragma omp barrier
                         ;
                     }
